@@ -180,7 +180,7 @@ impl Prop for C02 {
     const RULE: &'static str = "(n, strictly increasing positions): materialised bit sequences by regime, and sets in universes up to 2^64-1 directed at every low width 1..63 (n ~ m*2^w/ln2), with positions at 0, n-1, bucket edges k*2^s(-1), long runs and dense clusters (>= 10^5 ones, long select superblocks in the high bitvector); built by one of 8 public routes (builder set/try_set/extend, try_from_iter, conversions from plain and run-length vectors), all routes compared for equality; every query compared with a sorted-set model (all arguments when n <= 3000, else ends/extremes/neighbourhoods of 400 ones/bucket edges/generated). All subsets of universes n <= 10 (13 thorough) enumerated. Non-trivial: 1 <= m < n; distinct by (n, positions).";
 
     fn cases(tier: Tier) -> u32 {
-        tier.pick(6000, 60_000)
+        tier.pick(6000, 36_000)
     }
 
     fn strategy(tier: Tier, _cfg: &str) -> BoxedStrategy<Case> {
